@@ -264,7 +264,7 @@ pub fn is_op(e: Ev) -> bool {
 
 /// Is `e` an environment event that can land between two steps of an operation?
 pub fn is_env(e: Ev) -> bool {
-    matches!(e, Ev::DialOk(_) | Ev::DialFail(_) | Ev::HsOk(_) | Ev::HsFail(_) | Ev::Respond(_) | Ev::ConnReady(_) | Ev::ConnClose(_) | Ev::Upgrade(_) | Ev::Tick(_))
+    matches!(e, Ev::DialOk(_) | Ev::DialFail(_) | Ev::HsOk(_) | Ev::HsFail(_) | Ev::Respond(_) | Ev::ConnReady(_) | Ev::ConnClose(_) | Ev::Upgrade(_) | Ev::Nudge(_) | Ev::Tick(_))
 }
 
 fn actor_of(sim: &Sim, e: Ev) -> Actor {
@@ -529,6 +529,8 @@ fn sound_under_concurrency(v: &Viol) -> bool {
             | ("C06", _)
             | ("C15", _)
             | ("C04", "duplicate-h2-dial")
+            | ("C04", "dial-while-idle")
+            | ("C05", "expired")
             | ("C03", "stranded")
             | ("C03", "probe-blocked")
             | ("C03", "connection-in-limbo")
@@ -665,6 +667,7 @@ fn explore_state(cfg: &SimConfig, hist: &[Ev], seq_fps: &HashSet<Fp>, props: &[&
         error: None,
         sample: None,
     };
+    let issued_now = Sim::replay(cfg, hist).reqs.iter().filter(|r| !r.is_probe).count();
     let ops: Vec<(Ev, Actor)> = {
         let sim = Sim::replay(cfg, hist);
         sim.enabled().into_iter().filter(|e| is_op(*e)).map(|e| (e, actor_of(&sim, e))).collect()
@@ -680,12 +683,15 @@ fn explore_state(cfg: &SimConfig, hist: &[Ev], seq_fps: &HashSet<Fp>, props: &[&
         for j in (i + 1)..ops.len() {
             let (a, aa) = ops[i];
             let (b, ab) = ops[j];
-            if aa == ab {
+            let both_issue = matches!(a, Ev::Issue { .. }) && matches!(b, Ev::Issue { .. });
+            if aa == ab && !both_issue {
                 continue; // one future cannot be polled and dropped at once
             }
-            if matches!(a, Ev::Issue { .. }) && matches!(b, Ev::Issue { .. }) {
-                continue; // `call` is one critical section: the two orders are the sequential ones
+            if both_issue && issued_now + 2 > cfg.max_requests {
+                continue; // no budget for two more requests
             }
+            // (two `call`s are each one critical section on the unmodified code — two interleavings — but that
+            // is a fact about the code, not a reason to skip the pair)
             pairs.push((a, b));
         }
     }
@@ -705,6 +711,7 @@ fn explore_state(cfg: &SimConfig, hist: &[Ev], seq_fps: &HashSet<Fp>, props: &[&
             while let Some(prefix) = stack.pop() {
                 let mut sim = Sim::replay(cfg, hist);
                 let pre = checks::capture_pre(&sim);
+                let pre_ages: Vec<(usize, Duration)> = sim.snap.tokens.iter().flat_map(|t| t.idle.iter()).filter_map(|i| i.conn.parse::<usize>().ok().map(|c| (c, i.age))).collect();
                 let mut max_idle_seen = 0usize;
                 let (rep, trace) = match sim.apply_pair(a, b, &prefix, &mut max_idle_seen) {
                     Ok(x) => x,
@@ -734,6 +741,27 @@ fn explore_state(cfg: &SimConfig, hist: &[Ev], seq_fps: &HashSet<Fp>, props: &[&
                         sub: "idle-bound",
                         msg: format!("{max_idle_seen} idle connections retained for one origin while the two operations were in progress, max_idle_per_host={}", sim.snap.max_idle_per_host),
                     });
+                }
+                // Issue || Tick: when the clock step lands before the first lock acquisition of the check-out, the
+                // idle entry it takes was judged after the step: it must not be older than the timeout by then
+                if let (Ev::Issue { .. }, Ev::Tick(k)) = (a, b) {
+                    let tick_pos = trace.steps.iter().position(|(w, _)| *w == 1);
+                    let issue_steps: Vec<usize> = trace.steps.iter().enumerate().filter(|(_, (w, _))| *w == 0).map(|(i, _)| i).collect();
+                    if let (Some(tp), true) = (tick_pos, issue_steps.len() >= 2) {
+                        if tp < issue_steps[1] {
+                            if let (Some(r), Some(t)) = (sim.reqs.last(), sim.cfg.idle_timeout.filter(|t| *t > 0)) {
+                                if let Some(c) = r.held {
+                                    let pre_age = pre_ages.iter().find(|(id, _)| *id == c).map(|(_, a)| *a);
+                                    let step = Duration::from_millis(sim.cfg.t_ms * super::sim::tick_quarters(k) / 4);
+                                    if let Some(age) = pre_age {
+                                        if age + step > Duration::from_millis(t * sim.cfg.t_ms) {
+                                            viols.push(Viol { prop: "C05", sub: "expired", msg: format!("the clock moved by {step:?} before the check-out took the pool lock, yet it was given c{c}, idle for {:?} by then (idle timeout {:?})", age + step, Duration::from_millis(t * sim.cfg.t_ms)) });
+                                        }
+                                    }
+                                }
+                            }
+                        }
+                    }
                 }
                 let fp = fp_of(&canon(&sim));
                 if viols.is_empty() {
